@@ -31,6 +31,9 @@ def obligations(tier: str) -> list[dict]:
                 obs.append(ob('msg/%s/%s/K1' % (topo, sh), topo, [sh], 'cancel', 1, 200))
         for sh in ('client_cancel', 'client_disconnect'):
             obs.append(ob('msg/flat2/%s/K1' % sh, 'flat2', [sh], 'cancel', 1, 200))
+        for sh in ('cancel_map', 'cancel_after_next', 'cancel_nested'):
+            obs.append(ob('line/flat2/%s/K1' % sh, 'flat2', [sh], 'cancel', 1, 240, line=True, maxrank=1))
+        obs.append(ob('line/flat1/cancel_nested/K1', 'flat1', ['cancel_nested'], 'cancel', 1, 240, line=True, maxrank=1))
     else:
         for topo in ('flat1', 'flat2', 'flat3', 'mgr2x1', 'mgr1x2'):
             for sh in shapes + ('client_cancel', 'client_disconnect'):
